@@ -351,6 +351,48 @@ func genC01(g *Gen) {
 	}
 	g.Parallel(tasks)
 	c01ViaParallel(g, ens)
+	c01History(g, append(append([]config{}, ensCfg...), extraCfg...))
+}
+
+// c01History uses ONE algorithm object per configuration the way a long-lived caller does: the caller's
+// target object is reused for another value, a target congruent to the first modulo 2^64 is requested,
+// and then the first request is repeated. The answer must be the one a fresh object gives, and the one
+// given the first time (no state may survive a call).
+func c01History(g *Gen, cfgs []config) {
+	two64 := new(big.Int).Lsh(big.NewInt(1), 64)
+	run := func(a alg.ChainAlgorithm, n *big.Int) (addchain.Chain, string) {
+		var r exec.Result
+		if p := safe(func() { r = exec.Execute(n, a) }); p != "" {
+			return nil, "panic"
+		}
+		if r.Err != nil {
+			return nil, "err"
+		}
+		return r.Chain, "ok"
+	}
+	for i, cfg := range cfgs {
+		if !g.Thorough && i%4 != g.N%4 && cfg.kind == "dict" {
+			continue // a quarter of the dictionary configurations per quick run
+		}
+		obj := parseConfig(cfg.code).alg
+		v := int64(3 + g.R.Intn(4000))
+		n := big.NewInt(v)
+		first, st1 := run(obj, n)
+		firstCopy := cloneInts(first)
+		n.SetInt64(v + 1 + int64(g.R.Intn(50)))
+		run(obj, n)
+		run(obj, new(big.Int).Add(big.NewInt(v), two64))
+		run(obj, new(big.Int).Add(big.NewInt(5), two64))
+		run(obj, big.NewInt(5))
+		again, st2 := run(obj, big.NewInt(v))
+		fresh, st3 := run(parseConfig(cfg.code).alg, big.NewInt(v))
+		g.Count("history")
+		if st2 != st3 || st1 != st3 || !equalInts(again, fresh) || !equalInts(firstCopy, fresh) {
+			g.Notes = append(g.Notes, fmt.Sprintf("VIOLATION: %s on n=%d after earlier calls on the same object: %s %s; first call %s %s; fresh object %s %s",
+				cfg.code, v, st2, encInts(again), st1, encInts(firstCopy), st3, encInts(fresh)))
+			return
+		}
+	}
 }
 
 // c01ViaParallel runs members of the ensemble the way the CLI does — through exec.Parallel — and
